@@ -136,3 +136,12 @@ reg("C19", "exploration", "E1",
     "copy mode x worker {debug, cf}: with copy_mode=copy the originals are byte-identical afterwards; any other in-place mutation is "
     "reported (raise or error-level log record); every result directory is named by the checksum computed beforehand from a pristine copy.",
     "cf cases run in plain-fork helper processes (vt/ref/forkpool.py); reports when nothing was mutated are only counted (statement silent).")
+
+reg("C03", "exploration", "E1",
+    "bounded exhaustive enumeration of workflow programs against a nested-loop reference interpreter",
+    "Every program of a workflow grammar (unary/binary nodes wired to constants, workflow inputs or any earlier node; own split over "
+    "one field, outer, inner or split+upstream input; combiner over own or upstream axes) with n<=2 nodes complete and n=3 with "
+    "splits at the first node (thorough: n<=3 complete), plus nine named 4-5 node shape families (diamonds, fan-in of two splits, "
+    "late combiner, nested workflow): per node the multiset of job inputs (provenance terms from the execution log) and the "
+    "workflow outputs are compared with vt/ref/wfref.py.",
+    "Order between independent upstream states is not fixed by the statement (multiset comparison there); splitting over an upstream family is outside the reference language.")
